@@ -81,13 +81,16 @@ type c17Out struct {
 	pins   int
 }
 
+// c17Comma is how the twin writes the comma of a joined list (blanks around it are not significant).
+var c17Comma = ","
+
 // c17Build writes the message with a given spelling style and list layout.
 func c17Build(start string, vias, routes, rrs []string, rest [][2]string, body string, style int, joinVia, joinRoute []bool, symCase string) string {
 	text := start + "\r\n"
 	emit := func(name string, list []string, join []bool) {
 		for i, e := range list {
 			if i > 0 && join[i-1] {
-				text = text[:len(text)-2] + "," + e + "\r\n"
+				text = text[:len(text)-2] + c17Comma + e + "\r\n"
 			} else if style == 5 && name == "Via" {
 				// mixed: every Via line chooses its own spelling (canonical, compact, lower)
 				text += respell(name, []int{0, 1, 3, 6}[rt.Choice("line-spelling", 4)]) + ": " + e + "\r\n"
@@ -208,7 +211,9 @@ func VC17_Twins() {
 			}
 		}
 	}
+	c17Comma = []string{",", ", "}[rt.Choice("comma-blank", 2)]
 	twin := c17Build(start, vias, routes, rrs, rest, body, style, joinV, joinR, sym)
+	c17Comma = ","
 	a, okA := c17Run(base, path)
 	b, okB := c17Run(twin, path)
 	rt.Assert(okA && okB, "both spellings decode")
